@@ -356,6 +356,10 @@ pub extern "C" fn mla_archive_new(
     };
 
     let config_ptr = unsafe { *config.cast::<*mut ArchiveWriterConfig>() };
+    if config_ptr.is_null() {
+        // e.g. a handle already consumed (and cleared) by a previous call
+        return MLAStatus::BadAPIArgument;
+    }
     // Avoid any use-after-free of this handle by the caller
     unsafe {
         *config = null_mut();
@@ -606,6 +610,10 @@ fn mla_roarchive_extract_internal<'a, R: Read + Seek + 'a>(
     context: *mut c_void,
 ) -> MLAStatus {
     let config_ptr = unsafe { *config.cast::<*mut ArchiveReaderConfig>() };
+    if config_ptr.is_null() {
+        // e.g. a handle already consumed (and cleared) by a previous call
+        return MLAStatus::BadAPIArgument;
+    }
     // Avoid any use-after-free of this handle by the caller
     unsafe {
         *config = null_mut();
